@@ -31,6 +31,18 @@ def gen(rng, k):
         if np.linalg.matrix_rank(np.hstack([np.ones((n, 1)), idx])) == 3:
             break
     zero, a, b = lattice(rng, dyadic=False)
+    if (k // 6) % 4 == 2:
+        # fractional indices that lie CLOSE to whole numbers without being whole: virtual indices (reference positions in px
+        # relative to zero=(0,0), a=(1,0), b=(0,1)) a few thousandths of a pixel off whole pixels, or lattice indices relative to
+        # a reference basis that is scaled by a few ppm; no index row / column is exactly 0
+        if k % 2:
+            idx = rng.integers(300, 1800, (n, 2)).astype(np.float64) + rng.uniform(-0.004, 0.004, (n, 2))
+            zero, a, b = rng.uniform(-3, 3, 2), np.array([1.0, 0.0]) + rng.uniform(-0.01, 0.01, 2), np.array([0.0, 1.0]) + rng.uniform(-0.01, 0.01, 2)
+        else:
+            base_ = rng.integers(1, 9, (n, 2)).astype(np.float64) * rng.choice([-1, 1], (n, 2))
+            idx = base_ * (1 + float(rng.choice([3e-6, -5e-6, 8e-6])))
+        if np.linalg.matrix_rank(np.hstack([np.ones((n, 1)), np.round(idx)])) < 3:
+            idx[:3] = np.array([[1, 1], [2, 1], [1, 3]]) * (1 + 4e-6) + (300 if k % 2 else 0)
     resid = rng.normal(0, [0.0, 0.3, 2.0][k % 3], (n, 2))
     pts = zero + idx @ np.array([a, b]) + resid
     w = 10 ** rng.uniform(-4, 2, n) if k % 4 == 0 else rng.uniform(0.01, 100, n)
